@@ -174,7 +174,13 @@ pub fn check(s: &Scenario) -> CheckResult {
             (None, Obs::Some(t, v)) => {
                 return Err(Violation::new(format!("C10/{}/present-too-early", kname), format!("event {} ({:?}, sample #{} of its run): output {:?} at {} although not enough samples exist (history {:?})", i, ev, run, v, t, &s.events[..=i])));
             }
-            (None, _) => {}
+            (None, o) => {
+                // "absent until enough samples exist": after a *present* sample that is not yet enough, the output is absent -
+                // in particular not an error left over from before the run started (the stale-error defect fixed in bbbc9b8)
+                if matches!(ev, Ev::P(..)) {
+                    ensure!(matches!(o, Obs::None), format!("C10/{}/not-absent", kname), "event {} ({:?}, sample #{} of its run): not enough samples exist yet, so get() must be absent, but it is {:?} (history {:?})", i, ev, run, o, &s.events[..=i]);
+                }
+            }
             (Some(want), Obs::Some(t, v)) => {
                 // the newest *present* sample's time
                 let newest = hist.last().map(|h| h.0).unwrap_or(times[i]);
@@ -265,6 +271,6 @@ impl Property for C10 {
         m
     }
     fn assumptions() -> Vec<String> {
-        vec!["reset events: absent and error for integral/derivative, error only for the to-state converters (which ignore absent samples)".into(), "error caching after a reset is C05's subject: on the first sample of a run only 'not present' is asserted here".into()]
+        vec!["reset events: absent and error for integral/derivative, error only for the to-state converters (which ignore absent samples)".into(), "what get() returns right after an error or absent *event* is C05's subject; after a present sample that is not yet enough, exactly 'absent' is asserted here".into()]
     }
 }
